@@ -97,6 +97,11 @@ def make_mo(rng, obasis, atcoords, kind="restricted", occ="closed", norb=None):
             occs[:] = 0.0
             occs[0] = 2.0
             occs[2] = 2.0
+        elif occ == "fractional_frontier" and n >= 3:
+            # aufbau order, but the frontier orbital holds 0.7 electrons per spin: counted as occupied when the electrons are
+            # rounded to an integer, yet not fully occupied
+            occs[:] = 0.0
+            occs[:2] = [2.0, 1.4]
         elif occ == "nonaufbau_beta" and n >= 3:
             # restricted open shell with a hole in the beta occupations only: alpha 1,1,1 beta 1,0,1
             occs[:] = 0.0
@@ -113,6 +118,10 @@ def make_mo(rng, obasis, atcoords, kind="restricted", occ="closed", norb=None):
         occs[:3] = [1.0, 0.0, 1.0]
     if occ == "nonaufbau_ubeta" and nbb >= 3:
         occs[na: na + 3] = [1.0, 0.0, 1.0]
+    if occ == "fractional_ufrontier_alpha" and na >= 3:
+        occs[:3] = [1.0, 0.7, 0.0]
+    if occ == "fractional_ufrontier_beta" and nbb >= 3:
+        occs[na: na + 3] = [1.0, 0.6, 0.0]
     if occ == "fractional_ubeta_window" and na >= 3 and nbb >= 3:
         # more alpha than beta electrons, and a fractional beta occupation in one of the levels only alpha electrons fill
         occs[:3] = 1.0
@@ -235,9 +244,10 @@ def make(fmt, rng, variant="plain", natom=None):
         occ = "aminusb"
     if variant == "fatal_nonaufbau":
         occ = "nonaufbau"
-    if variant in ("fatal_nonaufbau_beta", "fatal_fractional"):
+    if variant in ("fatal_nonaufbau_beta", "fatal_fractional", "fatal_fractional_frontier"):
         occ = variant[6:]
-    if variant in ("fatal_nonaufbau_ualpha", "fatal_nonaufbau_ubeta", "fatal_fractional_ubeta_window"):
+    if variant in ("fatal_nonaufbau_ualpha", "fatal_nonaufbau_ubeta", "fatal_fractional_ubeta_window", "fatal_fractional_ufrontier_alpha",
+                   "fatal_fractional_ufrontier_beta"):
         occ = variant[6:]
         kind = "unrestricted"
     if variant == "fatal_generalized":
@@ -265,7 +275,8 @@ def make(fmt, rng, variant="plain", natom=None):
 
 VARIANTS = {
     "fchk": ["plain", "convertible", "convertible_ps", "fatal_generalized", "fatal_nonaufbau", "fatal_nonaufbau_beta", "fatal_fractional",
-             "fatal_nonaufbau_ualpha", "fatal_nonaufbau_ubeta", "fatal_fractional_ubeta_window", "unsorted"],
+             "fatal_nonaufbau_ualpha", "fatal_nonaufbau_ubeta", "fatal_fractional_ubeta_window", "fatal_fractional_frontier",
+             "fatal_fractional_ufrontier_alpha", "fatal_fractional_ufrontier_beta", "unsorted"],
     "molden": ["plain", "unsorted", "convertible", "convertible_amb", "fatal_generalized"],
     "molekel": ["plain", "unsorted", "convertible", "convertible_amb", "fatal_generalized"],
     "wfn": ["plain", "unsorted", "convertible", "convertible_amb", "fatal_generalized", "fatal_pure", "fatal_pure_in_generalized"],
